@@ -166,7 +166,7 @@ def case_mean_f4(ctx, nf, nbins, perturb):
     ctx.check(ctx.implies(ctx.Not(ctx.isnan(dr)), ctx.And(ctx.le(0, dr), ctx.lt(dr, 360))), "D-MEAN.dir.range")
 
 
-def case_mean_range(ctx, nf, nbins, j0):
+def case_mean_range(ctx, nf, nbins, j0, fmax_idx=None):
     """mean method: bins [j0, j0+nbins) follow c f^-4 exactly, every other bin is raised by its own positive amount:
     the minimum-variance window is that range and the equilibrium level is exactly c"""
     W = _shim(ctx)
@@ -188,7 +188,9 @@ def case_mean_range(ctx, nf, nbins, j0):
     a1 = ctx.reals("a1", (1, nf))
     b1 = ctx.reals("b1", (1, nf))
     s = C.make_1d(ctx, f, e, "time1", a1=a1, b1=b1, a2=a1 * 0, b2=b1 * 0)
-    out = W.friction_velocity(s, "mean", fmax=float(f[nf - 1]) if ctx.mode == "conc" else float(f[nf - 1].v),
+    im = nf - 1 if fmax_idx is None else fmax_idx      # the range must end below the bin nearest fmax
+    assert j0 + nbins <= im
+    out = W.friction_velocity(s, "mean", fmax=float(f[im]) if ctx.mode == "conc" else float(f[im].v),
                               number_of_bins=nbins)
     us = C.values(out["friction_velocity"])[0]
     ctx.reach("D-MEAN.range")
@@ -219,4 +221,8 @@ def cases(tier):
         add("case_mean_f4", f"mean_nf{nf}_b{nb}_p{pt}", nf=nf, nbins=nb, perturb=pt, opts=dict(weight=40))
     for nf, nb, j0 in ((5, 2, 0), (5, 2, 1), (6, 2, 2)) + (() if q else ((7, 3, 1),)):
         add("case_mean_range", f"meanrange_nf{nf}_b{nb}_j{j0}", nf=nf, nbins=nb, j0=j0, opts=dict(weight=60))
+    # the range is the LAST admissible window (ends just below the bin nearest fmax), fmax on the last / an inner bin
+    for nf, nb, j0, im in ((5, 2, 2, None), (6, 2, 2, 4), (6, 3, 2, None)) + (() if q else ((7, 3, 2, 5), (8, 4, 3, None))):
+        add("case_mean_range", f"meanrange_last_nf{nf}_b{nb}_j{j0}_fmax{im}", nf=nf, nbins=nb, j0=j0, fmax_idx=im,
+            opts=dict(weight=60))
     return cs
